@@ -439,7 +439,26 @@ def sup_load_impl_recursion(P):
         a = ot["args"][anc - 1]
         if not q.all_roots(ob, a, lambda r: r.kind == "call" and r.name in ("std::vec::Vec::new", "std::collections::HashSet::new")):
             return False, "outer caller %s does not start with an empty collection" % ob.key
-    return True, "recursion under !ancestors.any(== path), after ancestors.push(path), same vector passed down"
+    # the tested and the pushed value must be the same canonical path (else `a/../b` style cycles slip through)
+    from . import C11
+    pushes2 = [(bb, t) for bb, t in mir.call_sites(b, ["std::vec::Vec::push"])
+               if q.all_roots(b, t["args"][0], lambda r: q.is_param(r, "ancestors"))]
+    for bb, t in pushes2:
+        if not q.chain_ok(b, t["args"][1], C11.is_canon, stop=True):
+            return False, "what is pushed on the include stack is not the canonical path"
+    for bb, t in b.calls():
+        if callee_def(t) == "std::iter::Iterator::any":
+            for r in prov(b, t["args"][1]):
+                if r.kind == "agg" and r.name.startswith("closure:") and r.site is not None:
+                    for st in b.blocks[r.site]["stmts"]:
+                        if st["k"] == "assign" and st["rv"]["k"] == "aggregate" and st["rv"].get("agg") == "closure":
+                            for f in st["rv"]["fields"]:
+                                if not q.chain_ok(b, f["op"], C11.is_canon, stop=True):
+                                    return False, "the membership test compares the raw include path, not the canonical one"
+        if callee_def(t) == "core::slice::contains" and q.all_roots(b, t["args"][0], lambda r: q.is_param(r, "ancestors")):
+            if not q.chain_ok(b, t["args"][1], C11.is_canon, stop=True):
+                return False, "contains() is given the raw include path, not the canonical one"
+    return True, "recursion under !ancestors.any(== canonical path), after ancestors.push(canonical path), same vector passed down"
 
 
 SUPPORT = {
